@@ -266,6 +266,14 @@ pub fn write_ink_list(list: &InkList) -> serde_json::Value {
 
     jobj.insert("list".to_owned(), serde_json::Value::Object(jlist));
 
+    // An empty list still knows which LISTs it came from; keep that across a save
+    if list.items.is_empty() {
+        let origin_names = list.get_origin_names();
+        if !origin_names.is_empty() {
+            jobj.insert("origins".to_owned(), json!(origin_names));
+        }
+    }
+
     serde_json::Value::Object(jobj)
 }
 
